@@ -125,10 +125,10 @@ Theorem C03_parse_serialise_delim :
     Forall (row_ok pf schema) rows -> parse_raw_with pf Delim schema (serialise Delim rows) = Some rows.
 Proof. exact parse_serialise_delim_rows. Qed.
 Print Assumptions C03_parse_serialise_delim.
-(* the instance the correspondence uses, with the reader's rule on identifier columns *)
+(* the instance the correspondence uses *)
 Theorem C03_parse_file_serialise_delim :
   forall (schema : list Z) (rows : list row),
-    Forall (row_ok no_float_value schema) rows -> id_cols_ok schema rows = true ->
+    Forall (row_ok no_float_value schema) rows ->
     parse_file Delim schema (serialise Delim rows) = Some rows.
 Proof. exact parse_file_serialise_delim. Qed.
 Print Assumptions C03_parse_file_serialise_delim.
@@ -276,7 +276,6 @@ Theorem C03_model_ok_spec_ok_delim :
   forall c : case,
     k_fmt c = Delim -> k_header c = [] -> k_alt_file c = [] -> hist_ok Delim (k_hist c) -> tail_appends (k_hist c) ->
     Forall (row_ok no_float_value (k_schema c)) (rows_of_hist (k_hist c)) ->
-    id_cols_ok (k_schema c) (rows_of_hist (k_hist c)) = true ->
     forallb float_free_row (rows_of_hist (k_hist c)) = true ->
     model_ok c = true -> spec_ok c = true.
 Proof. exact model_ok_spec_ok_delim. Qed.
@@ -286,7 +285,6 @@ Theorem C03_model_ok_spec_ok_vcf :
     k_fmt c = Vcf -> k_header c = header_of hls -> k_alt_file c = [] -> Forall header_line_ok hls ->
     hist_ok Vcf (k_hist c) -> tail_appends (k_hist c) ->
     Forall (vcf_row_ok no_float_value (k_schema c)) (rows_of_hist (k_hist c)) ->
-    id_cols_ok (k_schema c) (rows_of_hist (k_hist c)) = true ->
     forallb float_free_row (rows_of_hist (k_hist c)) = true ->
     model_ok c = true -> spec_ok c = true.
 Proof. exact model_ok_spec_ok_vcf. Qed.
